@@ -107,11 +107,18 @@ class Prop(object):
                 if n >= 3 and h[0] != "H0":
                     continue  # everything not starting with a header is rejected at once (covered at n <= 2)
                 yield list(h)
+        from props import c10
+        for seqs in c10.DIRECTED:  # multi-sequence streams of differing configurations
+            yield c10.join(seqs)
+        for _ in range(ctx.n(200, 2000)):
+            k = rng.choice([2, 3])
+            yield c10.join([c10.gen_sequence(rng, bad=(rng.random() < 0.2))[0] for _ in range(k)])
         for _ in range(ctx.n(1200, 20000)):
             yield random_history(rng)
 
     def correspond(self, ctx):
         rng = ctx.rng("vd")
+        self._refbad = None
         lines, exp, meta = [], [], []
         cfgs = list(configs())
         pats = level_pattern_choices()
@@ -147,6 +154,27 @@ class Prop(object):
         ctx.corr_names.append("vd abstract histories -> real bytes -> real validator verdict == model verdict")
         ctx.sample({"history": meta[len(meta) // 2][0], "impl": exp[len(exp) // 2][0]})
         self._results = list(zip(meta, exp))
+        # self-check of the search oracle: the independent reference acceptor agrees with the real validator
+        nref = 0
+        for (hist, cfg, pat), (res, pics) in self._results:
+            if res.startswith("CRASH"):
+                continue
+            try:
+                data, flat, versions = S.build(cfg, hist)
+                ok, why = S.reference_accepts(flat, cfg.slices, pat)
+            except Exception as e:  # noqa
+                ctx.count("reference:error:%s" % type(e).__name__)
+                continue
+            desync = any(m is not None and m["kind"] in "AZ" and m["next"] != m["len"] for m in flat)
+            if ok != (res == "OK") and not desync:
+                nref += 1
+                if nref == 1:
+                    self._refbad = {"history": hist, "profile": cfg.profile, "pcm": cfg.pcm, "major_version": cfg.major_version,
+                                    "level_pattern": pat, "bytes": data.hex(),
+                                    "why": "validator says %s, the structure rules say %s (%s)" % (res, "conformant" if ok else "not conformant", why)}
+                if nref <= 3:
+                    ctx.notes.append("reference acceptor disagrees with the validator on %s: %s vs %s (%s)" % (hist, res, ok, why))
+        ctx.count("reference:disagreements", nref)
         if bad:
             ctx.broke("correspondence", "vd", {"disagreements": len(bad), "first": bad[:4]})
 
@@ -158,22 +186,43 @@ class Prop(object):
                 unknown.append({"history": hist, "profile": cfg.profile, "pcm": cfg.pcm, "major_version": cfg.major_version,
                                 "level_pattern": pat, "why": "validator raised %s (not a conformance error)" % res})
                 break
+        if not unknown and getattr(self, "_refbad", None):
+            unknown.append(self._refbad)
         return unknown
+
+    def check_one(self, cfg, hist, pat=None):
+        """the property on the REAL validator: never a non-conformance exception, and accept exactly the
+        histories the independent reference acceptor (streams.reference_accepts) accepts"""
+        data, flat, versions = S.build(cfg, hist)
+        res = S.validate(data, level_pattern=pat)
+        if res.startswith("CRASH"):
+            return "validator raised %s (not a conformance error)" % res, data
+        ok, why = S.reference_accepts(flat, cfg.slices, pat)
+        desync = any(m is not None and m["kind"] in "AZ" and m["next"] != m["len"] for m in flat)
+        if ok != (res == "OK") and not desync:
+            return ("validator says %s, the structure rules say %s (%s)" % (res, "conformant" if ok else "not conformant", why)), data
+        return None, data
 
     def search(self, ctx):
         rng = ctx.rng("search")
         cfgs = list(configs())
+        cands = []
+        for b in ctx.broken:  # disagreeing histories of the correspondence first
+            if b["kind"] == "correspondence" and isinstance(b["detail"], dict):
+                for d in b["detail"].get("first", []):
+                    cands.append((d["history"], S.Config(profile=d["profile"], pcm=d["pcm"], major_version=d["major_version"]), d.get("level_pattern")))
+        for (hist, cfg, pat), _ in getattr(self, "_results", []):
+            cands.append((hist, cfg, pat))
         for i in range(ctx.n(3000, 30000)):
-            hist = random_history(rng)
-            cfg = cfgs[i % len(cfgs)]
+            cands.append((random_history(rng), cfgs[i % len(cfgs)], None))
+        for hist, cfg, pat in cands:
             try:
-                data, flat, versions = S.build(cfg, hist)
+                why, data = self.check_one(cfg, hist, pat)
             except Exception:
                 continue
-            res = S.validate(data)
-            if res.startswith("CRASH"):
+            if why:
                 return {"history": hist, "profile": cfg.profile, "pcm": cfg.pcm, "major_version": cfg.major_version,
-                        "bytes": data.hex(), "why": "validator raised %s (not a conformance error)" % res}
+                        "level_pattern": pat, "bytes": data.hex(), "why": why}
         return None
 
     def replay(self, ctx, path):
@@ -184,10 +233,9 @@ class Prop(object):
             print("replay names broken obligations only:", r.get("broken_obligations"))
             return 1
         cfg = S.Config(profile=fi["profile"], pcm=fi["pcm"], major_version=fi["major_version"])
-        data, flat, versions = S.build(cfg, fi["history"])
-        res = S.validate(data, level_pattern=fi.get("level_pattern"))
-        print("replay %s -> %s" % (fi["history"], res))
-        return 1 if res.startswith("CRASH") else 0
+        why, data = self.check_one(cfg, fi["history"], fi.get("level_pattern"))
+        print("replay %s -> %s" % (fi["history"], why or "property holds"))
+        return 1 if why else 0
 
 
 PROP = Prop()
